@@ -10,7 +10,7 @@ OUTSIDE = 'more than 3 points/channels/sub-frames/frames; strings longer than 17
 ASSUMPTIONS = ['POINT:RATE=100 and ANALOG:RATE=100*S are concrete (they fix loop trip counts)', 'names are printable non-space ASCII; descriptions printable ASCII']
 
 def base(**kw):
-    c = dict(P=2, C=1, S=2, F=2, order=0, ex_type=0, ex_group=0, ex_ndim=0, ex_n=0, ex_nlen=0, ex_dlen=0, ex_slen=0, symnames=0, norate=0, pad=-1, point_scale=0)
+    c = dict(P=2, C=1, S=2, F=2, order=0, ex_type=0, ex_group=0, ex_ndim=0, ex_n=0, ex_nlen=0, ex_dlen=0, ex_slen=0, symnames=0, norate=0, pad=-1, point_scale=0, concname=0)
     c.update(kw); return c
 
 def ex_variants(tier):
@@ -39,11 +39,13 @@ def jobs(tier, seed):
     top = 2 if tier == 'quick' else 3
     # shapes x orders, no extra parameter
     shapes = [(p, c, s, f) for p in range(top + 1) for c in range(top + 1) for s in range(1, top + 1) for f in range(top + 1) if not (c == 0 and s > 1) and not (p == 0 and c == 0 and f > 0)]
-    if tier == 'quick':
-        shapes = [x for x in shapes if x in ((0, 0, 1, 0), (1, 0, 1, 1), (0, 1, 1, 1), (0, 2, 2, 2), (2, 1, 2, 2), (2, 2, 1, 2), (1, 1, 2, 0), (2, 0, 1, 2), (1, 2, 2, 1))]
-    for (p, c, s, f) in shapes:
-        for order in (0, 1, 2):
+    # (quick: every shape up to 2 points x 2 channels x 2 sub-frames x 2 frames, all three construction orders on nine of them and one
+    # order - rotating - on the others; thorough: every shape up to 3 each, all orders)
+    allorders = ((0, 0, 1, 0), (1, 0, 1, 1), (0, 1, 1, 1), (0, 2, 2, 2), (2, 1, 2, 2), (2, 2, 1, 2), (1, 1, 2, 0), (2, 0, 1, 2), (1, 2, 2, 1))
+    for k, (p, c, s, f) in enumerate(shapes):
+        for order in ((0, 1, 2) if tier == 'thorough' or (p, c, s, f) in allorders else (k % 3,)):
             J(P=p, C=c, S=s, F=f, order=order)
+            if tier == 'quick' and (p, c, s, f) not in allorders: out[-1]['sweep'] = True      # (checks that borrow this list skip these in their quick tier)
     # extra parameter variants on a fixed shape, each order and group placement
     for i, ev in enumerate(ex_variants(tier)):
         for order in (0, 1, 2):
